@@ -67,7 +67,10 @@ def case(ctx, i, rec):
     # --- moment fit
     for _ in range(120):
         mean = float(10 ** rng.uniform(-8, 8))
-        var = float(mean ** 2 * 10 ** rng.uniform(-8, 8))
+        # a quarter of the points ask for extremely peaked targets (shape up to 1e16)
+        var = float(mean ** 2 * 10 ** (rng.uniform(-16, -8) if rng.random() < 0.25 else rng.uniform(-8, 8)))
+        if var / mean ** 2 < 1e-8:
+            rec.count("points:mom:shape_above_1e8")
         try:
             a, b = approx.approximate_gamma_mom(mean, var)
         except approx.KLMinimizationFailedError:
